@@ -673,6 +673,9 @@ Definition env_enabled (e : envf) (st : est) (tid cs : N) (m : meta) : bool :=
 (** ** Histories (what the harness drives through the real macros) *)
 Inductive op :=
 | OSpan (tid cs id : N) (m : meta) (vals : list (bytes * rval))    (* span! hit on thread tid: callsite cs, fresh id *)
+| OSpanAbort (tid cs : N) (m : meta)     (* span! hit whose creation unwinds inside on_new_span (a field value's Debug impl
+                                            panics while the span match is built; the application catches it): the filter was
+                                            asked, nothing was stored — the match is built BEFORE by_id is locked for writing *)
 | ORecord (id : N) (vals : list (bytes * rval))
 | OEnter (tid id : N)
 | OExit (tid id : N)
@@ -690,6 +693,9 @@ Definition step (e : envf) (s : est * list N * list N) (o : op) : (est * list N 
       let '(st1, seen1) := reg_if_new e st seen cs m in
       let en := env_enabled e st1 tid cs m in
       if en then ((on_new_span st1 cs id vals, seen1, id :: live), Some true) else ((st1, seen1, live), Some false)
+  | OSpanAbort tid cs m =>
+      let '(st1, seen1) := reg_if_new e st seen cs m in
+      ((st1, seen1, live), Some (env_enabled e st1 tid cs m))
   | ORecord id vals => ((if existsb (N.eqb id) live then on_record st id vals else st, seen, live), None)
   | OEnter tid id => ((if existsb (N.eqb id) live then on_enter st tid id else st, seen, live), None)
   | OExit tid id => ((if existsb (N.eqb id) live then on_exit st tid id else st, seen, live), None)
@@ -724,6 +730,8 @@ Definition step_plain (e : envf) (s : est * list (N * interest) * list N) (o : o
       let '(st1, seen1, i) := reg cs m in
       if delivered e st1 tid cs m i then ((on_new_span st1 cs id vals, seen1, id :: live), Some true)
       else ((st1, seen1, live), Some false)
+  | OSpanAbort tid cs m =>
+      let '(st1, seen1, i) := reg cs m in ((st1, seen1, live), Some (delivered e st1 tid cs m i))
   | ORecord id vals => ((if existsb (N.eqb id) live then on_record st id vals else st, seen, live), None)
   | OEnter tid id => ((if existsb (N.eqb id) live then on_enter st tid id else st, seen, live), None)
   | OExit tid id => ((if existsb (N.eqb id) live then on_exit st tid id else st, seen, live), None)
